@@ -110,8 +110,9 @@ def _open(file, mode='r', buffering=-1, encoding=None, errors=None, newline=None
 				plan.ctx.fault('open_' + errno.errorcode.get(oe, str(oe)).lower(), file=os.path.basename(ap))
 				raise OSError(oe, os.strerror(oe), os.fspath(file))
 			if spec.get('fifo') is not None:
-				_feed_fifo(ap, spec['fifo'])
-			raw = SimRaw(ap, spec, plan, open_path=os.fspath(file))
+				raw = _open_prefilled_fifo(os.fspath(file), spec['fifo'], lambda: SimRaw(ap, spec, plan, open_path=os.fspath(file)))
+			else:
+				raw = SimRaw(ap, spec, plan, open_path=os.fspath(file))
 			if buffering == 0:
 				if 'b' not in mode:
 					raise ValueError("can't have unbuffered text I/O")
@@ -123,23 +124,18 @@ def _open(file, mode='r', buffering=-1, encoding=None, errors=None, newline=None
 	return _real_open(file, mode, buffering, encoding, errors, newline, closefd, opener)
 
 
-def _feed_fifo(path, data):
-	"""The other end of a named pipe: a writer that appears when somebody opens the pipe for reading."""
-	import threading
-
-	def feeder():
-		try:
-			fd = os.open(path, os.O_WRONLY)
-			try:
-				off = 0
-				while off < len(data):
-					off += os.write(fd, data[off:off + 65536])
-			finally:
-				os.close(fd)
-		except OSError:
-			pass
-	from . import escape
-	escape.own_thread(target=feeder, daemon=True).start()
+def _open_prefilled_fifo(path, data, make_reader):
+	"""A named pipe whose content is already in the pipe when the reader opens it - no feeder thread, nothing left to
+	timing: the harness holds the pipe open read-write (which never blocks on Linux), writes the content (it fits the
+	64 KiB pipe buffer by construction), lets the reader open, and lets go; the reader then sees the content and EOF."""
+	keep = os.open(path, os.O_RDWR | os.O_NONBLOCK)
+	try:
+		off = 0
+		while off < len(data):
+			off += os.write(keep, data[off:])
+		return make_reader()
+	finally:
+		os.close(keep)
 
 
 def install():
